@@ -44,25 +44,32 @@ def rhs5 (pk : Bool) (ps imp : List String) (e : X.Expr) : Bool :=
 def cond5 (pk : Bool) (ps imp : List String) (e : X.Expr) : Bool :=
   pureE e || (pk && ppE ps imp e)
 
+/-- A name the constants `ρ` make a system-call number. -/
+def valSys (ρ : String → Option Word) (f : String) : Bool :=
+  match ρ f with
+  | some w => decide (w.toNat < 3)
+  | none => false
+
 mutual
-/-- The statements of stage (4), with calls of pure functions in operands if `pk`. -/
-def okS5 (pk : Bool) (ps imp : List String) : X.Stmt → Bool
+/-- The statements of stage (4), with calls of pure functions in operands if `pk`; `ρ` are the
+    global constants (a call through a constant is a system call). -/
+def okS5 (pk : Bool) (ps imp : List String) (ρ : String → Option Word) : X.Stmt → Bool
   | .skip | .stop => true
   | .ret e => rhs5 pk ps imp e
-  | .ite c t e => cond5 pk ps imp c && okS5 pk ps imp t && okS5 pk ps imp e
-  | .while c b => cond5 pk ps imp c && okS5 pk ps imp b
-  | .seq ss => okS5L pk ps imp ss
+  | .ite c t e => cond5 pk ps imp c && okS5 pk ps imp ρ t && okS5 pk ps imp ρ e
+  | .while c b => cond5 pk ps imp c && okS5 pk ps imp ρ b
+  | .seq ss => okS5L pk ps imp ρ ss
   | .assign _ e => rhs5 pk ps imp e
   | .syscall id args => decide (id < 3) && args.all pureE
-  | .call f args => ps.contains f && args.all pureE
+  | .call f args => (ps.contains f || valSys ρ f) && args.all pureE
   | .assignSub _ i e => pureE i && pureE e
-def okS5L (pk : Bool) (ps imp : List String) : List X.Stmt → Bool
+def okS5L (pk : Bool) (ps imp : List String) (ρ : String → Option Word) : List X.Stmt → Bool
   | [] => true
-  | s :: ss => okS5 pk ps imp s && okS5L pk ps imp ss
+  | s :: ss => okS5 pk ps imp ρ s && okS5L pk ps imp ρ ss
 end
 
 mutual
-theorem okS4_okS5 (pk : Bool) (ps imp : List String) : (s : X.Stmt) → okS4 ps s = true → okS5 pk ps imp s = true
+theorem okS4_okS5 (pk : Bool) (ps imp : List String) (ρ : String → Option Word) : (s : X.Stmt) → okS4 ps s = true → okS5 pk ps imp ρ s = true
   | .skip, _ => rfl
   | .stop, _ => rfl
   | .ret e, h => by
@@ -76,28 +83,33 @@ theorem okS4_okS5 (pk : Bool) (ps imp : List String) : (s : X.Stmt) → okS4 ps 
   | .ite c t e, h => by
     simp only [okS4, Bool.and_eq_true] at h
     simp only [okS5, cond5, Bool.and_eq_true, Bool.or_eq_true]
-    exact ⟨⟨Or.inl h.1.1, okS4_okS5 pk ps imp t h.1.2⟩, okS4_okS5 pk ps imp e h.2⟩
+    exact ⟨⟨Or.inl h.1.1, okS4_okS5 pk ps imp ρ t h.1.2⟩, okS4_okS5 pk ps imp ρ e h.2⟩
   | .while c b, h => by
     simp only [okS4, Bool.and_eq_true] at h
     simp only [okS5, cond5, Bool.and_eq_true, Bool.or_eq_true]
-    exact ⟨Or.inl h.1, okS4_okS5 pk ps imp b h.2⟩
+    exact ⟨Or.inl h.1, okS4_okS5 pk ps imp ρ b h.2⟩
   | .seq ss, h => by
     simp only [okS4] at h
     simp only [okS5]
-    exact okS4L_okS5L pk ps imp ss h
+    exact okS4L_okS5L pk ps imp ρ ss h
   | .syscall _ _, h => by simp only [okS4] at h; simp only [okS5]; exact h
-  | .call _ _, h => by simp only [okS4] at h; simp only [okS5]; exact h
+  | .call _ _, h => by
+    simp only [okS4, Bool.and_eq_true] at h
+    simp only [okS5, Bool.and_eq_true, Bool.or_eq_true]
+    exact ⟨Or.inl h.1, h.2⟩
   | .assignSub _ _ _, h => by simp only [okS4] at h; simp only [okS5]; exact h
-theorem okS4L_okS5L (pk : Bool) (ps imp : List String) : (ss : List X.Stmt) → okS4L ps ss = true → okS5L pk ps imp ss = true
+theorem okS4L_okS5L (pk : Bool) (ps imp : List String) (ρ : String → Option Word) : (ss : List X.Stmt) → okS4L ps ss = true → okS5L pk ps imp ρ ss = true
   | [], _ => rfl
   | s :: ss, h => by
     simp only [okS4L, Bool.and_eq_true] at h
     simp only [okS5L, Bool.and_eq_true]
-    exact ⟨okS4_okS5 pk ps imp s h.1, okS4L_okS5L pk ps imp ss h.2⟩
+    exact ⟨okS4_okS5 pk ps imp ρ s h.1, okS4L_okS5L pk ps imp ρ ss h.2⟩
 end
 
-def isValFormal : X.Formal → Bool
+/-- `val` and `array` formals. -/
+def isVAFormal : X.Formal → Bool
   | .val _ => true
+  | .array _ => true
   | _ => false
 
 /-- One procedure of the program: source, frame index, position of its prologue, and the
@@ -128,6 +140,7 @@ structure GCtx where
   pk : Bool := false                   -- class v3: calls of pure functions in operands
   abase : Nat → Nat := fun _ => 0      -- word address of the global array with the given id
   asize : Nat → Nat := fun _ => 0      -- its length
+  rho : String → Option Word := fun _ => none   -- the global `val` constants
 
 def GCtx.S (G : GCtx) (pi : PInfo) : Nat := (frameOf G.cg pi.idx).size
 def GCtx.xl (G : GCtx) (pi : PInfo) : String := (frameOf G.cg pi.idx).exitLabel
@@ -185,7 +198,7 @@ theorem GCtx.locOf_cases (G : GCtx) (pi : PInfo) (sp : Nat) (n : String) (a : Na
 
 /-- The context of an activation of `pi` with stack pointer `sp` at nesting depth `dep`. -/
 def KOf (G : GCtx) (pi : PInfo) (sp dep : Nat) (hi : Nat → Word) : PCtx :=
-  { env := G.env, out := G.cg, ctx := G.ctxOf pi, xc := G.xc, ρ := fun _ => none, sp := sp,
+  { env := G.env, out := G.cg, ctx := G.ctxOf pi, xc := G.xc, ρ := G.rho, sp := sp,
     loc := G.locOf pi sp, consts := G.consts, nlocals := pi.p.locals.length, hi := hi,
     gnames := G.gnames ++ G.pnames, dep := dep, abase := G.abase, asize := G.asize }
 
@@ -215,14 +228,14 @@ structure GCtx.OK (G : GCtx) : Prop where
   at_pro : ∀ pi ∈ G.procs, At G.env.ds pi.iPro (proDirs pi.kind pi.p.name (G.S pi))
   at_body : ∀ pi ∈ G.procs, At G.env.ds (G.iBody pi) (lowerCode G.cg pi.code)
   at_epi : ∀ pi ∈ G.procs, At G.env.ds (G.iEpi pi) (G.epi pi)
-  gen : ∀ pi ∈ G.procs, genStmt (G.ctxOf pi) (optStmt (annotS (fun _ => none) pi.p.body)) pi.gs1 = .ok (pi.code, pi.gs2)
+  gen : ∀ pi ∈ G.procs, genStmt (G.ctxOf pi) (optStmt (annotS G.rho pi.p.body)) pi.gs1 = .ok (pi.code, pi.gs2)
   size_ok : ∀ pi ∈ G.procs, pi.gs2.size ≤ G.S pi
   nl_ok : ∀ pi ∈ G.procs, pi.p.locals.length ≤ pi.gs1.offset
   consts_ok : ∀ pi ∈ G.procs, ∀ e ∈ pi.gs2.constMap, e ∈ G.consts
   smax_ok : ∀ pi ∈ G.procs, G.S pi ≤ G.smax
-  body_ok : ∀ pi ∈ G.procs, okS5 G.pk G.pnames G.xc.impure pi.p.body = true
+  body_ok : ∀ pi ∈ G.procs, okS5 G.pk G.pnames G.xc.impure G.rho pi.p.body = true
   pure_ok : G.pk = true → PureOk G.xc
-  formals_val : ∀ pi ∈ G.procs, pi.p.formals.all isValFormal = true
+  formals_ok : ∀ pi ∈ G.procs, pi.p.formals.all isVAFormal = true
   locals_var : ∀ pi ∈ G.procs, pi.p.locals.all isVarDecl = true
   resolve : ∀ f p, G.xc.genv.lookup f = some (.proc p) → ∃ pi ∈ G.procs, pi.p = p ∧ p.name = f
   callee_sym : ∀ pi ∈ G.procs, ∀ pj ∈ G.procs, ∃ sym, G.cg.tbl.lookup pi.p.name pj.p.name = .ok sym ∧
@@ -230,7 +243,7 @@ structure GCtx.OK (G : GCtx) : Prop where
   genv_vars : ∀ n, G.xc.genv.lookup n = some .var → n ∈ G.gnames
   genv_arrs : ∀ n id, G.xc.genv.lookup n = some (.array id) → n ∈ G.gnames
   gnames_genv : ∀ n ∈ G.gnames, G.xc.genv.lookup n = some .var ∨ ∃ id, G.xc.genv.lookup n = some (.array id)
-  no_vals : ∀ n w, G.xc.genv.lookup n ≠ some (.val w)
+  rho_ok : ∀ n w, G.xc.genv.lookup n = some (.val w) ↔ G.rho n = some w
   pnames_ok : ∀ f p, G.xc.genv.lookup f = some (.proc p) → f ∈ G.pnames
   pnames_mem : ∀ f ∈ G.pnames, ∃ p, G.xc.genv.lookup f = some (.proc p)
   low_global : ∀ pi ∈ G.procs, ∀ sp n a, G.lo ≤ sp → G.locOf pi sp n = some a → a < sp → n ∈ G.gnames
@@ -262,12 +275,12 @@ structure GCtx.OK (G : GCtx) : Prop where
     frame intact except `spc[0]` (link) and `spc[1]` (the value of a function), and the global
     state of the reference semantics in memory; or it terminates the program. -/
 def CallSpec (G : GCtx) (fuel : Nat) : Prop :=
-  ∀ pi ∈ G.procs, ∀ (ws : List Word) (st : X.St) (lnk b : Word) (mem : Mem) (spc : Nat) (k : Nat) (kind : LabelKind) (n : String),
-    GRep G st mem → mem.read 1 = BitVec.ofNat 32 spc →
-    (∀ j (hj : j < ws.length), mem.read (spc + pi.po + j) = ws[j]) →
-    G.spv ≤ spc + st.depth * G.smax → spc + pi.po + ws.length ≤ G.spv + 1 → G.lo ≤ spc →
+  ∀ pi ∈ G.procs, ∀ (vs : List Val) (st : X.St) (lnk b : Word) (mem : Mem) (spc : Nat) (k : Nat) (kind : LabelKind) (n : String),
+    GRep G st mem → mem.read 1 = BitVec.ofNat 32 spc → (∀ v ∈ vs, okV v = true) →
+    (∀ j (hj : j < vs.length), mem.read (spc + pi.po + j) = wordOf G.abase vs[j]) →
+    G.spv ≤ spc + st.depth * G.smax → spc + pi.po + vs.length ≤ G.spv + 1 → G.lo ≤ spc →
     G.env.ds[k]? = some (.label kind n) → G.env.addr k = lnk.toNat →
-    match X.callUser fuel G.xc pi.p (ws.map Val.int) st with
+    match X.callUser fuel G.xc pi.p vs st with
     | .ok res s' => ∃ a' b' mem', Steps G.env (cfg pi.iPro lnk b mem) st.io (cfg k a' b' mem') s'.io ∧
         GRep G s' mem' ∧ mem'.read 1 = BitVec.ofNat 32 spc ∧
         (∀ x, spc < x → x ≠ spc + 1 → ¬ G.inArr x → mem'.read x = mem.read x) ∧
